@@ -288,7 +288,12 @@ static void exec_c15(const Plan& p, Outcome& out) {
         StringView target;
         ParseResult pr = GetOnDemand(StringView(tb.data, text.size()), jp, target);
         bool instr = !ref.ok && ref.err_in_string;
-        if (pr.Error()) ob = instr ? "err" : "err" + std::to_string((int)pr.Error());
+        // error CLASS: the codes for a malformed string literal (unescaped control byte, bad escape, bad \u, bad UTF-8)
+        // are one class - which of them is met first depends on the vector width; the on-demand scanner can reach
+        // such a literal even when the reference parser's first fault lies elsewhere (it does not validate structure)
+        int ec = (int)pr.Error();
+        bool string_class = ec == kParseErrorUnEscaped || ec == kParseErrorEscapedFormat || ec == kParseErrorEscapedUnicode || ec == kParseErrorInvalidUTF8;
+        if (pr.Error()) ob = instr ? "err" : (string_class ? std::string("errS") : "err" + std::to_string(ec));
         else ob = "ok" + std::to_string(target.data() - tb.data) + "+" + std::to_string(target.size());
         tb.free();
       } else if (op.kind == "UpdateLazy") {
